@@ -4,6 +4,7 @@
 #include "nmtools/array/view/broadcast_arrays.hpp"
 #include "nmtools/array/array/broadcast_to.hpp"
 #include "nmtools/array/array/broadcast_arrays.hpp"
+#include "nmtools/array/index/free_axes.hpp"
 #define NMC_MAIN
 #include "common.hpp"
 
@@ -16,6 +17,9 @@ void nmc_enumerate(const nmc::Tier& t, const nmc::Sink& emit) {
     nmc::each_shape_range(0, 4, 3, [&](const L& s) { S04_3.push_back(s); });
     nmc::each_shape_range(1, 4, 3, [&](const L& s) { S14_3.push_back(s); });
     for (auto& a : S04_4) for (auto& b : S04_4) emit(Case("bs2", {a, b}));
+    // index::free_axes(result shape, original shape) for every broadcastable pair of S(0..3,3) (the helper is in the property's anchors although no view calls it):
+    // an axis of the RESULT is free iff it is prepended or the original extent there is 1
+    for (auto& a : S03_3) for (auto& b : S03_3) { if (b.empty()) continue; emit(Case("fax", {a, b})); }
     auto& T = t.thorough() ? S04_3 : S03_3;
     for (auto& a : T) for (auto& b : T) for (auto& c : T) emit(Case("bs3", {a, b, c}));
     if (t.thorough()) {   // pairs up to dim 6 over extents {1,2,3}
@@ -137,6 +141,17 @@ Outcome nmc_execute(const Case& c) {
         if (!self || *self != c.a[0]) return Outcome::bad("wrong", "not idempotent: (a,a)=" + show(self), true, h);
         if (got) { auto r = to_sl(*got); auto again = shape_of(ix::broadcast_shape(a, r)); if (again != got) return Outcome::bad("wrong", "bs(a,bs(a,b)) = " + show(again) + " != bs(a,b) = " + show(got), true, h); }
         return Outcome::ok(stretched || !want, h);
+    }
+    if (c.op == "fax") {
+        auto bs = ref::broadcast_shapes({c.a[0], c.a[1]});
+        if (!bs) return Outcome::ok(false, 23);                      // not broadcastable: free_axes is not defined
+        const L& r = *bs; const L& o = c.a[1];
+        L want(r.size(), 0); for (size_t i = 0; i < r.size(); i++) { long bi = (long)o.size() - (long)(r.size() - i); want[i] = (bi < 0 || o[(size_t)bi] == 1) ? 1 : 0; }
+        auto got = ix::free_axes(to_sl(r), to_sl(o));
+        L g; for (size_t i = 0; i < (size_t)nm::len(got); i++) g.push_back(nm::at(got, i) ? 1 : 0);
+        uint64_t h = nmc::hash_vec(g) ^ nmc::mix(nmc::hash_vec(r));
+        if (g != want) return Outcome::bad("wrong", "free_axes" + nmc::str(r) + nmc::str(o) + " = " + nmc::str(g) + " expected " + nmc::str(want), true, h);
+        return Outcome::ok(r != o, h);
     }
     if (c.op == "bs2k") {
         auto want = ref::broadcast_shapes({c.a[2], c.a[3]});
